@@ -80,7 +80,19 @@ def zoo():
             ('LmiEdmdSpectralRadiusConstr', lambda: L.LmiEdmdSpectralRadiusConstr(spectral_radius=0.8, max_iter=2, solver_params=S), lm),
             ('LmiEdmdHinfReg', lambda: L.LmiEdmdHinfReg(alpha=1, max_iter=2, solver_params=S), lm),
             ('LmiEdmdDissipativityConstr', lambda: L.LmiEdmdDissipativityConstr(
-                supply_rate=np.diag([0.5, 0.5, -2.0]), max_iter=2, solver_params=S), lm)]
+                supply_rate=np.diag([0.5, 0.5, -2.0]), max_iter=2, solver_params=S), lm),
+            ('LmiEdmd/twonorm', lambda: L.LmiEdmd(alpha=0.1, ratio=0.5, reg_method='twonorm', inv_method='chol', solver_params=S), lm),
+            ('LmiDmdcSpectralRadiusConstr', lambda: L.LmiDmdcSpectralRadiusConstr(spectral_radius=0.8, max_iter=2, solver_params=S), lm),
+            ('LmiDmdcHinfReg/weight', lambda: L.LmiDmdcHinfReg(
+                alpha=1, max_iter=2, solver_params=S,
+                weight=('post', np.array([[0.5]]), np.array([[1.0]]), np.array([[0.5]]), np.array([[0.2]]))), lm),
+            # array-valued zeros / poles given in other units than rad/s (converted at fit time)
+            ('LmiHinfZpkMeta/hz', lambda: L.LmiHinfZpkMeta(
+                hinf_regressor=L.LmiEdmdHinfReg(alpha=1, max_iter=1, inv_method='chol', solver_params=S), type='post',
+                zeros=np.array([-0.5]), poles=np.array([-2.0]), gain=1.0, t_step=0.1, units='hz'), lm),
+            ('LmiHinfZpkMeta/normalized', lambda: L.LmiHinfZpkMeta(
+                hinf_regressor=L.LmiEdmdHinfReg(alpha=1, max_iter=1, inv_method='chol', solver_params=S), type='pre',
+                zeros=np.array([]), poles=np.array([-0.4 + 0.0j]), gain=0.5, t_step=0.1, units='normalized'), lm)]
     return out
 
 
